@@ -185,6 +185,36 @@ Fixpoint scan12 (t : tr12) (h : list (aop * ares * deliveries)) : bool :=
   | (o, r, d) :: rest => c12_ok t o r d && scan12 (tr12_step t o r) rest
   end.
 
+(** one event per APPLIED entry: an entry that is in the store handed back by shutdown, and that the
+    whole history carries exactly once -- in this reconciliation message -- was applied by this very
+    request, so every live subscription must have been told about it then (whatever kind of entry it
+    is: deletion markers included) *)
+Definition carried12 (x : aop * ares) : list entry :=
+  match x with
+  | (ASyncProcess _ m _ _, AReply _ _ _) => map fst (flat_map part_values m)
+  | (AInsertRemote _ e _ _ _ _, AOk) => [e]
+  | (AInsertLocal ns au true k hs l now, AOk) => [mkE ns au k now l hs]
+  | (ADeletePrefix ns au true k now, ACount _) => [mkE ns au k now 0 EHASH]
+  | _ => []
+  end.
+Definition announces (e : entry) (ev : event) : bool :=
+  match ev with RemoteInsert e' _ _ _ => entry_eqb e e' | _ => false end.
+Definition applied_announced (fin all : list entry) (t : tr12) (o : aop) (r : ares) (d : deliveries) : bool :=
+  match o, r with
+  | ASyncProcess ns m _ _, AReply _ _ _ =>
+      forallb (fun v => let e := fst v in
+                 negb (existsb (entry_eqb e) fin)
+                 || negb (Nat.eqb (length (filter (entry_eqb e) all)) 1)
+                 || forallb (fun c => existsb (announces e) (chan_events c d)) (live_subs t ns))
+              (flat_map part_values m)
+  | _, _ => true
+  end.
+Fixpoint scan12a (fin all : list entry) (t : tr12) (h : list (aop * ares * deliveries)) : bool :=
+  match h with
+  | [] => true
+  | (o, r, d) :: rest => applied_announced fin all t o r d && scan12a fin all (tr12_step t o r) rest
+  end.
+
 Definition final_eqb (a b : N * list entry) : bool := (fst a =? fst b) && list_eqb entry_eqb (snd a) (snd b).
 
 (** replies only (the concurrent phase does not look at event deliveries) *)
@@ -217,5 +247,7 @@ Definition check (c : case) : N :=
   let m2 := if c_prop c =? 14 then scan14 (mkT14 [] []) (c_hist c) && shutdown_ok c' && c_inflight_answered c
                                    (* the sequential part agrees with the model, the concurrent replies admit no order *)
                                    && ((negb (bad =? 0)) || lin)
-            else scan12 (mkT12 [] [] [] (mkT14 [] [])) (c_hist c) in
+            else scan12 (mkT12 [] [] [] (mkT14 [] [])) (c_hist c)
+                 && scan12a (flat_map snd (c_final c)) (flat_map (fun x => carried12 (fst (fst x), snd (fst x))) acks)
+                            (mkT12 [] [] [] (mkT14 [] [])) (c_hist c) in
   bit (negb m1) 1 + bit (negb m2) 2.
